@@ -173,7 +173,8 @@ func ParseNDStream(r io.Reader, res chan<- Stream, reuse <-chan *ParsedJson) {
 				err = err2
 			}
 
-			if len(tmp) > 0 {
+			// A chunk that holds only blank lines has nothing to parse.
+			if len(bytes.TrimSpace(tmp)) > 0 {
 				result := make(chan Stream, 0)
 				queue <- result
 				vseq := verifStreamNext()
